@@ -37,7 +37,7 @@ def plans(tier):
 
 
 def check(ctx):
-    ctx.explanation = ("Slice.tla states the specification RefSlice (contiguous sub-sequence; which end a limit keeps) and "
+    ctx.explanation = ("(greenback: Portal.tla's behaviours are replayed in a real Trio task and after every action extract_since(None), called by the innermost frame, is compared by identity with the thread's frame chain continued through the greenlet parents) Slice.tla states the specification RefSlice (contiguous sub-sequence; which end a limit keeps) and "
                        "transcribes unwrap_stackslice operator by operator (AlgSlice); TLC checks AlgSlice == RefSlice for every "
                        "stack shape the harness can really build (1..3 nested greenlets, plain / running-generator / "
                        "running-coroutine call levels, thread bootstrap frames included) and every (outer, inner, limit); every "
@@ -108,3 +108,27 @@ def check(ctx):
             ctx.violation(f"[{v}] stack {mm['shape']} (plan {mm['plan']}) query outer/inner/limit={mm['query']}: {mm['bad']}", mm)
     s0 = all_shapes[len(all_shapes) // 2]
     ctx.sample({"shape": list(s0), "queries": by_shape[s0][:5]})
+    greenback_part(ctx, d)
+
+
+def greenback_part(ctx, d):
+    """extract_since(None) from inside a task whose frames greenback has spread over greenlets (Portal.tla's
+    behaviours): the result must be the thread's own frame chain continued through the greenlet parents"""
+    from ..common import VENV_PY
+    from ..tlc import derive_cfg
+    x = ctx.tlc(run_tlc("Portal", derive_cfg("Portal_export.cfg", "Portal_c04.cfg", {"MaxSteps": "3" if ctx.tier == "quick" else "4", "WithCms": "FALSE"}),
+                        timeout=900, name="portal_c04", coverage=False), "greenback portal behaviours (for extract_since inside a task)")
+    if not x.ok or not x.emitted:
+        raise MachineryError("no portal behaviours exported")
+    bp, op = d / "portal_b.json", d / "portal_o.json"
+    bp.write_text(json.dumps({"behaviours": x.emitted}))
+    p, _ = run([VENV_PY, str(VERIF / "harness/drivers/portal_driver.py"), str(bp), str(op)], timeout=1800, env=child_env("3.12"))
+    if p.returncode != 0:
+        raise MachineryError(f"portal driver failed: {p.stderr[-2000:]}")
+    o = json.loads(op.read_text())
+    ctx.replays += o["since_n"]
+    ctx.note("extract_since_inside_greenback_tasks", o["since_n"])
+    if not o["since_n"]:
+        raise MachineryError("the portal driver made no extract_since observation")
+    for mm in o["since_mismatches"]:
+        ctx.violation("[3.12] " + mm["what"] + " (after %s)" % [a.get("edge") or a["a"] for a in mm["acts"]], mm)
